@@ -316,14 +316,14 @@ def _receiver_variant(body, op, depth=8):
     seen = set()
     while p is not None and depth > 0:
         depth -= 1
-        for e in p.get("p", []):
-            if isinstance(e, dict) and "d" in e:
-                # owner is recorded on the following field elem
-                owner = None
-                for e2 in p.get("p", []):
-                    if isinstance(e2, dict) and "f" in e2 and e2.get("o"):
-                        owner = e2["o"]
-                return (owner, e["d"])
+        ds = [e for e in p.get("p", []) if isinstance(e, dict) and "d" in e]
+        if ds:
+            # the innermost (last) downcast is the slot's variant; its owner is recorded on the following field elem
+            owner = None
+            for e2 in p.get("p", []):
+                if isinstance(e2, dict) and "f" in e2 and e2.get("o"):
+                    owner = e2["o"]
+            return (owner, ds[-1]["d"])
         l = p["l"]
         if l in seen:
             return None
